@@ -90,6 +90,8 @@ def scenarios(tier, seed):
                                     ops=[list(x) for x in triples[i]], states="default", hashseed=0, latents=[]))
     for i in range(8):
         out.append(dict(family="dbn", mode="dbn", variant=i, hashseed=i % 2))
+    for i in range(3):
+        out.append(dict(family="dbn-history", mode="dbnhist", variant=i, hashseed=i % 2))
     for i in range(6):
         out.append(dict(family="jt", mode="jt", variant=i, hashseed=i % 2))
     for i in range(4):
@@ -100,7 +102,31 @@ def scenarios(tier, seed):
 
 
 def run(desc, M):
-    return {"bn": run_bn, "dbn": run_dbn, "jt": run_jt, "mn": run_mn, "dag": run_dag}[desc["mode"]](desc, M)
+    return {"bn": run_bn, "dbn": run_dbn, "jt": run_jt, "mn": run_mn, "dag": run_dag, "dbnhist": run_dbn_history}[desc["mode"]](desc, M)
+
+
+def run_dbn_history(desc, M):
+    """histories on a DynamicBayesianNetwork that include a removal: whatever the (inherited) removal leaves behind, the network never contains a
+    directed cycle afterwards"""
+    from pgmpy.models import DynamicBayesianNetwork as DBN
+    M.declare([])
+    v = desc["variant"]
+    d = DBN()
+    d.add_edges_from([(("A", 0), ("B", 0)), (("B", 0), ("C", 0)), (("A", 0), ("A", 1))])
+    hist = [[("remove_node", ("A", 0)), ("add_edge", ("B", 0), ("A", 0))],
+            [("remove_node", ("B", 0)), ("add_edge", ("C", 0), ("B", 0)), ("add_edge", ("B", 0), ("A", 0))],
+            [("remove_nodes_from", [("A", 0)]), ("add_edge", ("C", 0), ("A", 0))]][v]
+    for op in hist:
+        try:
+            if op[0] == "remove_node":
+                d.remove_node(op[1])
+            elif op[0] == "remove_nodes_from":
+                d.remove_nodes_from(op[1])
+            else:
+                d.add_edge(op[1], op[2])
+        except (ValueError, NotImplementedError, nx.NetworkXError, KeyError):
+            pass
+        M.check(nx.is_directed_acyclic_graph(d), "a DynamicBayesianNetwork never contains a directed cycle, also after a removal", detail=f"after {op}: {sorted(map(str, d.edges()))}")
 
 
 def snapshot(model):
